@@ -1,6 +1,7 @@
 //! Conformance harness for dvb_gse_rust: drives the real crate, records one
 //! ndjson event per public call.  The recorded traces are validated by TLC
 //! against /verif/spec/Trace*.tla; there is no oracle in this program.
+mod drv_chains;
 mod drv_lattice;
 mod rx;
 mod tx;
@@ -48,6 +49,7 @@ fn main() {
     let mut out = Out::new(&path, only);
     match driver.as_str() {
         "lattice" => drv_lattice::run(&mut out, seed, thorough),
+        "chains" => drv_chains::run(&mut out, seed, thorough),
         _ => {
             eprintln!("unknown driver {}", driver);
             std::process::exit(2);
